@@ -228,6 +228,10 @@ def run(ctx):
                     fn=e, site=(hit[1] if hit else fx.fn(e)["loc"]), detail=hit)
     for e in STOP_ENTRIES:
         check_submit_on_ok(ctx, fx, "R04.1", e, set(STOP_ENTRIES))
+    # R04.7 ... and the call of a handled message returns what the handler produced: the caller waits for its response slot and
+    # for nothing else (a race with the termination notice could discard a reply that was sent) — shared with C02
+    from props import c02 as _c02
+    _c02.check_response_slots(ctx, fx, "tokio", "R04.7")
     # R04.6 messages accepted before the stop are still handled: queued payloads run their handler unconditionally (shared with C01)
     from props.c01 import check_payloads
     check_payloads(ctx, fx, "tokio", "R04.6")
